@@ -11,7 +11,7 @@
    jq-defined builtins (coq/gen/GenBuiltins.v is the instance regenerated from builtin.jq). *)
 From Coq Require Import String.
 From Coq Require Import List ZArith NArith.
-From Verif Require Import common.Sexp sem.JV sem.Syntax sem.Natives sem.Sem sem.SemProofs gen.GenBuiltins.
+From Verif Require Import common.Sexp sem.JV sem.Syntax sem.Natives sem.Sem sem.SemProofs sem.DenLink gen.GenBuiltins.
 Import ListNotations.
 
 (* The full statement of C01 (NOT proved here): every observation of the real compiler + VM on a
@@ -47,14 +47,14 @@ Theorem C01_pipe : forall bs n rho l r v ps k,
 Proof. exact pipe_law. Qed.
 Print Assumptions C01_pipe.
 
-(* `empty` is the unit of comma ([tick] = one unit of the work budget, spent by every call) *)
+(* `empty` is the unit of comma *)
 Theorem C01_empty_unit_left : forall bs n rho r v ps k, not_redefined bs rho "empty" 0 ->
-  meq (eval_q bs (S (S (S (S n)))) rho (q_bin q_empty OpComma r) v ps k) (tick ;; eval_q bs (S (S (S n))) rho r v ps k).
+  meq (eval_q bs (S (S (S (S n)))) rho (q_bin q_empty OpComma r) v ps k) (eval_q bs (S (S (S n))) rho r v ps k).
 Proof. exact empty_unit_left. Qed.
 Print Assumptions C01_empty_unit_left.
 
 Theorem C01_empty_unit_right : forall bs n rho l v ps k, not_redefined bs rho "empty" 0 ->
-  meq (eval_q bs (S (S (S (S n)))) rho (q_bin l OpComma q_empty) v ps k) (eval_q bs (S (S (S n))) rho l v ps k ;; tick).
+  meq (eval_q bs (S (S (S (S n)))) rho (q_bin l OpComma q_empty) v ps k) (eval_q bs (S (S (S n))) rho l v ps k).
 Proof. exact empty_unit_right. Qed.
 Print Assumptions C01_empty_unit_right.
 
@@ -125,6 +125,32 @@ Theorem C01_path_concat : forall bs n rho c a d b v w1 w2 kp,
       (_ <- fresh ;; _ <- fresh ;; _ <- fresh ;; kp [VStr (c :: a); VStr (d :: b)]).
 Proof. exact path_pipe_fields_law. Qed.
 Print Assumptions C01_path_concat.
+
+(* (4) towards C01_full: on the state-free fragment F0 (identity, scalar literals, pipe, comma, empty, t[], t.k,
+   if/else, try/catch, error, length, `src as $x | body`, $x) the demand-driven CPS semantics IS the eager
+   list semantics den0, written clause by clause like coq/c01vm/Den.v (which coq/c01vm proves equal to the
+   compiled code running on the VM): for every continuation, hence for every observation *)
+Theorem C01_sem_is_list_semantics_F0 : forall bs rs,
+  lookup_builtin bs (codes "empty") 0 = None -> lookup_builtin bs (codes "error") 0 = None ->
+  lookup_builtin bs (codes "length") 0 = None ->
+  forall q, ok0 q -> forall (n : nat) rho v k s, (need q <= n)%nat -> vars_only rho -> K_ok rs k -> repsens s = rs ->
+    eval_q bs n rho (emb q) (plain v) None k s = run_res k (den0 rs q rho v) s.
+Proof. exact sem_den0. Qed.
+Print Assumptions C01_sem_is_list_semantics_F0.
+
+Theorem C01_observe_is_list_semantics_F0 : forall bs rs,
+  lookup_builtin bs (codes "empty") 0 = None -> lookup_builtin bs (codes "error") 0 = None ->
+  lookup_builtin bs (codes "length") 0 = None ->
+  forall q, ok0 q -> forall n capn ins v,
+  (need q <= n)%nat -> (List.length (fst (den0 rs q [] v)) < capn)%nat ->
+  observe bs n capn rs ins (emb q) v = (fst (den0 rs q [] v), ending_of (snd (den0 rs q [] v))).
+Proof. exact observe_den0. Qed.
+Print Assumptions C01_observe_is_list_semantics_F0.
+
+Example builtins_do_not_redefine_F0_natives :
+  lookup_builtin builtin_defs (codes "empty") 0 = None /\ lookup_builtin builtin_defs (codes "error") 0 = None /\
+  lookup_builtin builtin_defs (codes "length") 0 = None.
+Proof. repeat split; vm_compute; reflexivity. Qed.
 
 (* non-vacuity: the builtin.jq of the current tree defines first/1 as the law assumes and does not
    redefine `empty`; a fuel-free run exists with two outputs followed by an error
